@@ -104,7 +104,19 @@ def _casadi_sig(m):
     return json.dumps(d, sort_keys=True)
 
 
-def request(tree, cls, be):
+def _scribble(flat_root):
+    """the caller owns the returned flat tree: overwrite it (after it has been serialised) so that any aliasing
+    between a returned result and the parsed tree / a later result shows up in later requests"""
+    for c in flat_root.classes.values():
+        for s in list(c.symbols.values()):
+            s.name = "__scribbled__"
+            s.prefixes = ["__scribbled__"]
+        c.symbols.clear()
+        del c.equations[:]
+        del c.initial_equations[:]
+
+
+def request(tree, cls, be, scribble=False):
     """Run one flatten / generate request on `tree`.  Returns a comparable outcome:
        ["ok", digest, text] or ["exc", exception type, message]."""
     from pymoca import ast
@@ -113,6 +125,8 @@ def request(tree, cls, be):
             from pymoca import tree as ptree
             r = ptree.flatten(tree, ast.ComponentRef.from_string(cls))
             s = tree_json(r)
+            if scribble:
+                _scribble(r)
         elif be == "casadi":
             from pymoca.backends.casadi import generator as cg
             s = _casadi_sig(cg.generate(tree, cls))
